@@ -1,6 +1,6 @@
 (** C01 — property theorems only. *)
 From Coq Require Import List ZArith Arith Bool.
-From Kardia Require Import C01.Power C01.Agreement C01.Chain C01.Checker C01.Examples C01.Sync C01.SyncProofs C01.Lock C01.LockProofs.
+From Kardia Require Import C01.Power C01.Agreement C01.Chain C01.Checker C01.Examples C01.Sync C01.SyncProofs C01.Lock C01.LockProofs C01.Monitor C01.MonitorProofs.
 Local Open Scope Z_scope.
 
 (** Quorum intersection for arbitrary voting-power distributions. *)
@@ -139,3 +139,13 @@ Theorem C01_lock_is_last_precommit :
       (r <= lr)%nat \/ release powers B B_eq_dec tr r (l_round B st) b' = true.
 Proof. exact lock_is_last_precommit. Qed.
 Print Assumptions C01_lock_is_last_precommit.
+
+(** The monitor run by the correspondence check (C01/Monitor.v, extracted: the lock automaton replayed
+    on a validator's events inside the recorded global trace) is sound: a trace it accepts satisfies
+    that validator's obligations. *)
+Theorem C01_monitor_sound :
+  forall powers, Forall (fun p => 0 <= p) powers ->
+  forall (B : Type) (B_eq_dec : forall x y : B, {x = y} + {x <> y}) (i : nat) (tr : trace B) st tr',
+    monitor powers B B_eq_dec i tr = Some (st, tr') -> tr' = tr /\ obeys powers B B_eq_dec tr i.
+Proof. exact monitor_sound. Qed.
+Print Assumptions C01_monitor_sound.
